@@ -23,7 +23,7 @@ def universe_json(drive, kind, uname, size, seed):
 
 
 def write_mc(work, name, uni, emit, max_depth=0, ramp=False, switches=None, invariants=None, props=None, view=True,
-             extra_inv=None, start_full=False, cov=False):
+             extra_inv=None, start_full=False, cov=False, protect=True, fillcap=0, floor=0):
     sw = dict(DEFAULT_SWITCHES)
     if switches:
         sw.update(switches)
@@ -41,9 +41,10 @@ def write_mc(work, name, uni, emit, max_depth=0, ramp=False, switches=None, inva
     prs = props if props is not None else ARTTREE_PROPS
     with open(os.path.join(work.specdir, mod + ".cfg"), "w") as f:
         f.write("CONSTANTS\n Keys <- MCKeys\n RangeBad <- MCRangeBad\n Family = \"%s\"\n" % uni["family"])
-        f.write(" EmitEdges = %s\n MaxDepth = %d\n Ramp = %s\n StartFull = %s\n CovOn = %s\n" % (
+        f.write(" EmitEdges = %s\n MaxDepth = %d\n Ramp = %s\n StartFull = %s\n CovOn = %s\n ProtectEnds = %s\n" % (
             "TRUE" if emit else "FALSE", max_depth, "TRUE" if ramp else "FALSE", "TRUE" if start_full else "FALSE",
-            "TRUE" if cov else "FALSE"))
+            "TRUE" if cov else "FALSE", "TRUE" if protect else "FALSE"))
+        f.write(" FillCap = %d\n DrainFloor = %d\n" % (fillcap, floor))
         for k, v in sw.items():
             f.write(" %s = %s\n" % (k, v))
         f.write("INIT Init\nNEXT Next\n")
@@ -124,7 +125,7 @@ def run_model(work, mod, out_edges, workers=8, xmx="6g", timeout=3600, simulate=
     try:
         with open(out_edges, "w") as ef:
             p = subprocess.Popen(cmd, cwd=work.specdir, stdout=subprocess.PIPE, stderr=subprocess.STDOUT, text=True)
-            tail = []
+            tail, verdict_lines = [], []
             for ln in p.stdout:
                 ln = ln.rstrip("\n")
                 m = _edge_re.match(ln)
@@ -133,6 +134,8 @@ def run_model(work, mod, out_edges, workers=8, xmx="6g", timeout=3600, simulate=
                     n += 1
                     continue
                 tail.append(ln)
+                if "violated" in ln:
+                    verdict_lines.append(ln)   # a long counterexample may push the verdict out of the tail
                 if len(tail) > 400:
                     tail = tail[-200:]
                 if time.time() - t0 > timeout:
@@ -144,7 +147,7 @@ def run_model(work, mod, out_edges, workers=8, xmx="6g", timeout=3600, simulate=
         shutil.rmtree(meta, ignore_errors=True)
     res.wall = time.time() - t0
     res.edges_file, res.edges = out_edges, n
-    out = "\n".join(tail)
+    out = "\n".join(verdict_lines + tail)
     res.out_tail = "\n".join(l for l in tail if not l.startswith(("Semantic", "Linting", "Parsing")))[-3000:]
     m = re.search(r"(\d+) states generated, (\d+) distinct states found", out)
     if m:
